@@ -8,6 +8,7 @@ import tempfile
 
 import numpy as np
 
+from graphslam.edge.edge_odometry import EdgeOdometry
 from graphslam.graph import Graph
 
 from .. import build as B
@@ -77,6 +78,21 @@ def compare_graphs(run, g1, g2, parsed, key, what):
     return True
 
 
+class TaggedOdometry(EdgeOdometry):
+    """A user edge type that keeps the built-in text form (inherited to_g2o, hence a built-in tag) but has its own reader and cost: passed as a
+    custom edge type it must come back from a file as itself (custom types are consulted before the built-in readers)."""
+
+    def calc_chi2(self):
+        return 3.0 * super().calc_chi2()
+
+    @classmethod
+    def from_g2o(cls, line, g2o_params_or_none=None):
+        e = EdgeOdometry.from_g2o(line, g2o_params_or_none)
+        if e is not None:
+            e.__class__ = cls
+        return e
+
+
 def check(run):
     rnd = random.Random(run.seed * 17 + 2)
     thorough = run.tier == 'thorough'
@@ -103,6 +119,13 @@ def check(run):
             key = dict(inexpressible=inex)
             path = os.path.join(tmpdir, 'g%d.g2o' % n)
             raised = None
+            custom = None
+            if n % 4 == 1:
+                for e in g._edges:
+                    if type(e) is EdgeOdometry:
+                        e.__class__ = TaggedOdometry
+                custom = [TaggedOdometry]
+                stats['graphs_with_user_subclass_edges'] = stats.get('graphs_with_user_subclass_edges', 0) + 1
             try:
                 g.to_g2o(path)
             except Exception as ex:  # noqa
@@ -171,7 +194,7 @@ def check(run):
                 pass
             for cyc in range(1, (6 if n % 5 == 0 else 3)):
                 try:
-                    g2 = Graph.from_g2o(path)
+                    g2 = Graph.from_g2o(path, custom) if custom else Graph.from_g2o(path)
                 except Exception as ex:  # noqa
                     run.violation(dict(key, outcome='import-raised'), 'import of an exported graph raised %r (cycle %d)' % (ex, cyc), dict(abstract=c['g']))
                     break
